@@ -1,5 +1,9 @@
 // genconsts reads the literals the Coq model depends on out of /repo's
-// current source (go/ast, no type checking) and writes coq/Gen/Consts.v.
+// current source (go/ast, no type checking) and writes coq/Gen/Consts.v
+// (scalars; imported by Model/Json.v and so by everything) and, next to it,
+// coq/Gen/SioSpecs.v (the branch patterns of node "start" of the two service
+// specifications of package sio, as terms of the model's json type; imports
+// Model/Json.v).
 // A literal it cannot find (the source was rewritten) is never guessed silently:
 // the value the model was last validated with is written, and the constant is
 // listed in <out>.unextracted.json.  The check driver reports the lost tie for
@@ -13,8 +17,10 @@ import (
 	"go/ast"
 	"go/parser"
 	"go/token"
+	"math"
 	"os"
 	"path/filepath"
+	"sort"
 	"strconv"
 	"strings"
 )
@@ -33,6 +39,12 @@ var pinned = map[string]string{
 	"ineq_ops": `["<="; ">="; "!="; ">"; "<"]`, "default_branch_type": `"bindings"`, "default_error_node": `"error"`,
 	"default_limit": "100%Z", "exp_permanent_bindings": "true", "exp_branch_target_variables": "true",
 	"allow_property_variables": "true", "check_bad_property_variables": "true", "inequalities": "true",
+	// sio/timersspec.go and sio/captainspec.go, node "start" (Gen/SioSpecs.v)
+	"sio_timers_start_type": `"message"`,
+	"sio_timers_start_branches": `[(JObj [("makeTimer", JObj [("id", JStr "?id"); ("in", JStr "?in"); ("msg", JStr "?msg")])], "make"); ` +
+		`(JObj [("cancelTimer", JStr "?id")], "cancel")]`,
+	"sio_captain_start_type":     `"message"`,
+	"sio_captain_start_branches": `[(JStr "?op", "do")]`,
 }
 
 var unextracted = map[string]string{}
@@ -221,6 +233,185 @@ func b(v bool) string {
 	return "false"
 }
 
+// ---- service specifications of package sio (Gen/SioSpecs.v) ----
+
+// coqStr: a Coq string literal; only printable ASCII is written (anything else is reported, not guessed).
+func coqStr(s string) string {
+	for i := 0; i < len(s); i++ {
+		if s[i] < 32 || s[i] > 126 {
+			die("string %q is not printable ASCII: not written as a Coq literal", s)
+		}
+	}
+	return q(s)
+}
+
+// coqJSON prints a value decoded by encoding/json as a term of the model's
+// json type (Model/Json.v): a number f is JNum (4*f) and must be a multiple
+// of 1/4; the members of an object are listed in sorted key order (the
+// canonical order of the harness's printer writeCoqJSON; Model/Match.v sorts
+// the keys of a pattern with several members itself).
+func coqJSON(sb *strings.Builder, x interface{}) {
+	switch v := x.(type) {
+	case nil:
+		sb.WriteString("JNull")
+	case bool:
+		sb.WriteString("JBool " + b(v))
+	case float64:
+		q4 := v * 4
+		if q4 != math.Trunc(q4) || math.Abs(q4) > 1e15 {
+			die("number %v is not a multiple of 1/4: not representable in the model", v)
+		}
+		sb.WriteString(fmt.Sprintf("JNum (%d)%%Z", int64(q4)))
+	case string:
+		sb.WriteString("JStr " + coqStr(v))
+	case []interface{}:
+		sb.WriteString("JArr [")
+		for i, y := range v {
+			if i > 0 {
+				sb.WriteString("; ")
+			}
+			coqJSON(sb, y)
+		}
+		sb.WriteString("]")
+	case map[string]interface{}:
+		ks := make([]string, 0, len(v))
+		for k := range v {
+			ks = append(ks, k)
+		}
+		sort.Strings(ks)
+		sb.WriteString("JObj [")
+		for i, k := range ks {
+			if i > 0 {
+				sb.WriteString("; ")
+			}
+			sb.WriteString("(" + coqStr(k) + ", ")
+			coqJSON(sb, v[k])
+			sb.WriteString(")")
+		}
+		sb.WriteString("]")
+	default:
+		die("value of type %T is not JSON", x)
+	}
+}
+
+// nodeLit: the composite literal given for the key "<node>" in the first map
+// literal of the function that has such a key (Nodes: map[string]*core.Node{"start": {...}}).
+func nodeLit(fd *ast.FuncDecl, node string) *ast.CompositeLit {
+	var out *ast.CompositeLit
+	ast.Inspect(fd, func(n ast.Node) bool {
+		if out != nil {
+			return false
+		}
+		if kv, is := n.(*ast.KeyValueExpr); is {
+			if s, ok := strLit(kv.Key); ok && s == node {
+				v := kv.Value
+				if ue, is := v.(*ast.UnaryExpr); is {
+					v = ue.X
+				}
+				if cl, is := v.(*ast.CompositeLit); is {
+					out = cl
+				}
+			}
+		}
+		return true
+	})
+	if out == nil {
+		die("%s: no node %q given as a literal", fd.Name.Name, node)
+	}
+	return out
+}
+
+// branchesLit: the &core.Branches{...} literal of the node.
+func branchesLit(fd *ast.FuncDecl, node string) ast.Expr {
+	return litField(nodeLit(fd, node), "Branches")
+}
+
+// patternOf: the pattern of a branch as the value the specification holds at
+// run time: mustParse(<string literal>) is the decoded JSON text (what
+// mustParse does with a string), a string literal is that string.
+func patternOf(e ast.Expr) interface{} {
+	if s, ok := strLit(e); ok {
+		return s
+	}
+	if ce, is := e.(*ast.CallExpr); is {
+		if id, is := ce.Fun.(*ast.Ident); is && id.Name == "mustParse" && len(ce.Args) == 1 {
+			text, ok := strLit(ce.Args[0])
+			if !ok {
+				die("the argument of mustParse is not a string literal")
+			}
+			var x interface{}
+			if err := json.Unmarshal([]byte(text), &x); err != nil {
+				die("the argument of mustParse is not JSON: %v", err)
+			}
+			return x
+		}
+	}
+	die("a branch pattern is neither a string literal nor mustParse(<string literal>)")
+	return nil
+}
+
+// startBranches: [(pattern, target); ...] of the node's branches, in source
+// order.  A branch with anything but a pattern and a target (a guard, no
+// pattern) is not what the model of the service machines covers: reported.
+func startBranches(fd *ast.FuncDecl, node string) string {
+	list := litField(branchesLit(fd, node), "Branches")
+	cl, is := list.(*ast.CompositeLit)
+	if !is {
+		die("%s: the branches of node %q are not a literal", fd.Name.Name, node)
+	}
+	var sb strings.Builder
+	sb.WriteString("[")
+	for i, el := range cl.Elts {
+		if ue, is := el.(*ast.UnaryExpr); is {
+			el = ue.X
+		}
+		br, is := el.(*ast.CompositeLit)
+		if !is {
+			die("%s: branch %d of node %q is not a literal", fd.Name.Name, i, node)
+		}
+		for _, f := range br.Elts {
+			kv, is := f.(*ast.KeyValueExpr)
+			if !is {
+				die("%s: branch %d of node %q has positional fields", fd.Name.Name, i, node)
+			}
+			if id, is := kv.Key.(*ast.Ident); !is || (id.Name != "Pattern" && id.Name != "Target") {
+				die("%s: branch %d of node %q has a field other than Pattern and Target", fd.Name.Name, i, node)
+			}
+		}
+		target, ok := strLit(litField(br, "Target"))
+		if !ok {
+			die("%s: the target of branch %d of node %q is not a string literal", fd.Name.Name, i, node)
+		}
+		if i > 0 {
+			sb.WriteString("; ")
+		}
+		sb.WriteString("(")
+		coqJSON(&sb, patternOf(litField(br, "Pattern")))
+		sb.WriteString(", " + coqStr(target) + ")")
+	}
+	sb.WriteString("]")
+	return sb.String()
+}
+
+func startType(fd *ast.FuncDecl, node string) string {
+	s, ok := strLit(litField(branchesLit(fd, node), "Type"))
+	if !ok {
+		die("%s: the branching type of node %q is not a string literal", fd.Name.Name, node)
+	}
+	return coqStr(s)
+}
+
+// writeIfChanged keeps the timestamp of an unchanged file so that make does nothing.
+func writeIfChanged(out, text string) {
+	if old, err := os.ReadFile(out); err == nil && string(old) == text {
+		return
+	}
+	if err := os.WriteFile(out, []byte(text), 0644); err != nil {
+		fmt.Fprintf(os.Stderr, "genconsts: write %s: %v\n", out, err)
+		os.Exit(1)
+	}
+}
+
 func main() {
 	out := "/verif/coq/Gen/Consts.v"
 	if len(os.Args) > 1 {
@@ -229,7 +420,8 @@ func main() {
 	if len(os.Args) > 2 {
 		repo = os.Args[2]
 	}
-	var sb strings.Builder
+	var consts, sio strings.Builder
+	sb := &consts
 	sb.WriteString("(* GENERATED from /repo by harness/cmd/genconsts on every run; do not edit. *)\n")
 	sb.WriteString("From Coq Require Import String List ZArith.\nImport ListNotations.\nOpen Scope string_scope.\n")
 	// every literal is read under a trap: what cannot be read is reported and replaced by the pinned value
@@ -290,6 +482,22 @@ func main() {
 	})
 	def("inequalities", "bool", func() string { return b(identBool(litField(dm(), "Inequalities"), "Inequalities")) })
 
+	// the second file: node "start" of the two service specifications of package sio
+	sb = &sio
+	sb.WriteString("(* GENERATED from /repo (sio/timersspec.go, sio/captainspec.go) by harness/cmd/genconsts on every run; do not edit.\n")
+	sb.WriteString("   Node \"start\" of Crew.NewTimersSpec and Crew.NewCaptainSpec: the branching type and, in source order,\n")
+	sb.WriteString("   each branch's pattern (the JSON text given to mustParse, decoded; object members in sorted key order) and target. *)\n")
+	sb.WriteString("From Sheens Require Import Model.Json.\nOpen Scope string_scope.\nOpen Scope list_scope.\n")
+	timers, captain := file("sio/timersspec.go"), file("sio/captainspec.go")
+	def("sio_timers_start_type", "string", func() string { return startType(funcDecl(timers(), "NewTimersSpec"), "start") })
+	def("sio_timers_start_branches", "list (json * string)", func() string {
+		return startBranches(funcDecl(timers(), "NewTimersSpec"), "start")
+	})
+	def("sio_captain_start_type", "string", func() string { return startType(funcDecl(captain(), "NewCaptainSpec"), "start") })
+	def("sio_captain_start_branches", "list (json * string)", func() string {
+		return startBranches(funcDecl(captain(), "NewCaptainSpec"), "start")
+	})
+
 	side, _ := json.MarshalIndent(unextracted, "", " ")
 	if err := os.WriteFile(out+".unextracted.json", side, 0644); err != nil {
 		fmt.Fprintf(os.Stderr, "genconsts: %v\n", err)
@@ -298,12 +506,6 @@ func main() {
 	for k, v := range unextracted {
 		fmt.Fprintf(os.Stderr, "genconsts: %s not read from the source (%s): pinned value written\n", k, v)
 	}
-	text := sb.String()
-	if old, err := os.ReadFile(out); err == nil && string(old) == text {
-		return // unchanged: keep the timestamp so make does nothing
-	}
-	if err := os.WriteFile(out, []byte(text), 0644); err != nil {
-		fmt.Fprintf(os.Stderr, "genconsts: write %s: %v\n", out, err)
-		os.Exit(1)
-	}
+	writeIfChanged(out, consts.String())
+	writeIfChanged(filepath.Join(filepath.Dir(out), "SioSpecs.v"), sio.String())
 }
